@@ -108,6 +108,13 @@ ENGINE_RULE = ("random spec graphs (<=5 nodes + optional explicit error node, <=
                "limits incl. none/0/negative, breakpoints.  One PRNG (VERIF_SEED).  Non-trivial: more than one stride or an action ran; "
                "distinct = distinct canonical (spec, state, messages, limit) text.")
 
+CREW_RULE = ("histories of 2-8 messages for a sio crew of 0-5 relay/recorder machines (1-3 generated specs; each machine counts the "
+             "messages it is presented with and emits 0-2 routed or unrouted follow-ups per depth, depth <= 2): captain operations "
+             "(create, re-create, replace state, replace spec, delete) interleaved with ordinary messages with every target shape "
+             "(absent, id, '*', lists with unknown/repeated/non-string members, reserved names, non-container).  After every message: "
+             "reported changes, emitted multiset and live view compared with the model; shadow store folded from the reports compared "
+             "with the live crew; a second crew rebuilt from the store at every boundary and fed the rest.  Non-trivial: history of more than one message.")
+
 PROPS = {
     "C01": {
         "modules": ["Sheens.Props.C01", "Sheens.Props.MatchTotal"],
@@ -225,5 +232,31 @@ PROPS = {
         "oracles": ["permanent", "total"],
         "probes": [],
         "rule": ENGINE_RULE,
+    },
+    "C14": {
+        "modules": ["Sheens.Props.C14"],
+        "theorems": [],
+        "facts": [],
+        "runs": {
+            "quick": [("crew", ["-profile", "crew", "-n", "700"])],
+            "thorough": [("crew", ["-profile", "crew", "-n", "15000"])],
+        },
+        "analyze": analyze_generic,
+        "oracles": ["deliveredOnce"],
+        "probes": ["bfsOrdered", "batchOrder", "servicesQuiet"],
+        "rule": CREW_RULE,
+    },
+    "C15": {
+        "modules": ["Sheens.Props.C15"],
+        "theorems": [],
+        "facts": [],
+        "runs": {
+            "quick": [("crew", ["-profile", "crew", "-n", "700"])],
+            "thorough": [("crew", ["-profile", "crew", "-n", "15000"])],
+        },
+        "analyze": analyze_generic,
+        "oracles": ["storeEqLive"],
+        "probes": ["storeEqLive", "rebuildEquiv"],
+        "rule": CREW_RULE,
     },
 }
